@@ -192,9 +192,38 @@ def reportGen (a : Answer) : Report where
   objValuePassed := isProblemSolvedOrFeasible a.code && decide (a.nObj = 1)
   altCodes := if a.solStub then List.replicate a.nAlt (altCodeWritten a) else []
 
+/-- Further observable uses of the classification in the reporting code
+(`ReportSolution2AMPL`, `StdBackend::ReportStandardSuffixes`, `MIPBackend::ReportRays`,
+`MIPBackend::CalculateAndReportIIS`). -/
+structure Extras where
+  /-- message has "; feasrelax objective <v>" (single-objective branch, option alg:feasrelax) -/
+  feasrelaxShown : Bool
+  /-- message has "Original objective = <v>" -/
+  origObjShown : Bool
+  /-- suffix `.kappa` returned:  `if (IsProblemSolved() && exportKappa()) ReportKappa()` -/
+  kappaSuffix : Bool
+  /-- suffix `.unbdd`:  `need_ray_primal() && (IsProblemUnbounded() || IsProblemIndiffInfOrUnb())` -/
+  unbddSuffix : Bool
+  /-- suffix `.dunbdd`: `need_ray_dual() && (IsProblemInfeasible() || IsProblemIndiffInfOrUnb())` -/
+  dunbddSuffix : Bool
+  /-- suffix `.iis`: `(IsProblemInfOrUnb() || IsProblemIndiffInfOrUnb()) && exportIIS` -/
+  iisSuffix : Bool
+deriving DecidableEq, Repr
+
+def extras (a : Answer) : Extras where
+  feasrelaxShown := isProblemSolvedOrFeasible a.code && decide (a.nObj = 1) && a.feasrelax
+  origObjShown := isProblemSolvedOrFeasible a.code && decide (a.nObj = 1) && a.origObj
+  kappaSuffix := isProblemSolved a.code && a.kappaOpt
+  unbddSuffix := a.rayPrimalOpt && (isProblemUnbounded a.code || isProblemIndiffInfOrUnb a.code)
+  dunbddSuffix := a.rayDualOpt && (isProblemInfeasible a.code || isProblemIndiffInfOrUnb a.code)
+  iisSuffix := (isProblemInfOrUnb a.code || isProblemIndiffInfOrUnb a.code) && a.iisOpt
+
 def b2s (b : Bool) : String := if b then "1" else "0"
 
 def Report.toStr (r : Report) : String :=
   s!"objShown={b2s r.objectiveShown} code={r.codeWritten} primal={b2s r.primalPassed} dual={b2s r.dualPassed} objval={b2s r.objValuePassed} alt={",".intercalate (r.altCodes.map toString)}"
+
+def Extras.toStr (r : Extras) : String :=
+  s!"fr={b2s r.feasrelaxShown} orig={b2s r.origObjShown} kappa={b2s r.kappaSuffix} unbdd={b2s r.unbddSuffix} dunbdd={b2s r.dunbddSuffix} iis={b2s r.iisSuffix}"
 
 end MpVerif.C10
